@@ -76,6 +76,7 @@ type disk struct {
 	dirty     bool
 	mapfs     fstest.MapFS
 	base      time.Time
+	goneDir   map[string]int64 // original directories: global event stamp at which each stopped being a directory in this run
 }
 
 var theDisk *disk
@@ -124,6 +125,7 @@ func Cleanup() {
 
 // reset restores the pristine tree.
 func (d *disk) reset() {
+	d.goneDir = map[string]int64{}
 	if !d.dirty {
 		for _, f := range d.files {
 			f.versions = f.versions[:1]
@@ -195,6 +197,13 @@ func (d *disk) swapToDir(rel string) {
 	os.RemoveAll(p)
 	os.MkdirAll(p, 0o755)
 	d.endVersions(rel)
+	// MkdirAll brings every missing ancestor back as a directory
+	for a := rel; strings.Contains(a, "/"); {
+		a = a[:strings.LastIndex(a, "/")]
+		if fi, err := os.Stat(filepath.Join(d.pub, filepath.FromSlash(a))); err == nil && fi.IsDir() {
+			delete(d.goneDir, a)
+		}
+	}
 	d.dirty = true
 }
 
@@ -230,6 +239,9 @@ func (d *disk) endVersions(rel string) {
 	for name, f := range d.files {
 		if name != rel && !strings.HasPrefix(name, rel+"/") {
 			continue
+		}
+		if f.spec.isDir && d.goneDir != nil && d.goneDir[name] == 0 {
+			d.goneDir[name] = now // removed, or replaced by a regular file (nothing in a run re-creates a directory)
 		}
 		for i := range f.until {
 			if f.until[i] == 0 {
